@@ -984,4 +984,434 @@ theorem WL_frame (fuel : Nat) (w : WL) (src : List Nat) (hw : w.state = .header)
     · rw [i1]; congr 1; omega
     · omega
 
+/-! ## floats and blobs: the remaining streaming tokens -/
+
+theorem stripPlusMinus_append {p : List Char} (hp : p ≠ []) (q : List Char) :
+    stripPlusMinus (p ++ q) = ((stripPlusMinus p).1, (stripPlusMinus p).2 ++ q) := by
+  cases p with
+  | nil => exact absurd rfl hp
+  | cons c r =>
+    by_cases h1 : c = '-'
+    · subst h1; simp [stripPlusMinus]
+    · by_cases h2 : c = '+'
+      · subst h2; simp [stripPlusMinus]
+      · have e1 : ∀ t : List Char, stripPlusMinus (c :: t) = (false, c :: t) := by
+          intro t; unfold stripPlusMinus
+          split
+          · rename_i heq; simp only [List.cons.injEq] at heq; exact absurd heq.1 h1
+          · rename_i heq; simp only [List.cons.injEq] at heq; exact absurd heq.1 h2
+          · rfl
+        rw [List.cons_append, e1, e1]; rfl
+
+/-- The optional exponent, when the streaming parser does not run into the end of the input. -/
+theorem exponent_ext {r : List Char} (h : expInc r = false) (q : List Char) :
+    expInc (r ++ q) = false ∧
+    lexExponent (r ++ q) = (lexExponent r).map (fun t => (t.1, t.2.1, t.2.2 ++ q)) := by
+  cases r with
+  | nil => simp [expInc] at h
+  | cons c r' =>
+    simp only [List.cons_append]
+    by_cases hc : c = 'e' ∨ c = 'E'
+    · simp only [expInc, hc, ↓reduceIte] at h ⊢
+      simp only [lexExponent, hc, ↓reduceIte]
+      cases r' with
+      | nil => simp at h
+      | cons s r'' =>
+        simp only [List.cons_append] at h ⊢
+        have hsp := stripPlusMinus_append (p := s :: r'') (by simp) q
+        simp only [List.cons_append] at hsp
+        have hr3 : (if s = '+' ∨ s = '-' then r'' else s :: r'') = (stripPlusMinus (s :: r'')).2 := by
+          by_cases h1 : s = '-'
+          · subst h1; simp [stripPlusMinus]
+          · by_cases h2 : s = '+'
+            · subst h2; simp [stripPlusMinus]
+            · have : stripPlusMinus (s :: r'') = (false, s :: r'') := by
+                unfold stripPlusMinus
+                split
+                · rename_i heq; simp only [List.cons.injEq] at heq; exact absurd heq.1 h1
+                · rename_i heq; simp only [List.cons.injEq] at heq; exact absurd heq.1 h2
+                · rfl
+              simp [this, h1, h2]
+        have hr3' : (if s = '+' ∨ s = '-' then r'' ++ q else s :: (r'' ++ q)) = (stripPlusMinus (s :: r'')).2 ++ q := by
+          rw [← hr3]; split <;> simp
+        rw [hr3] at h
+        rw [hr3', hsp]
+        simp only
+        generalize (stripPlusMinus (s :: r'')).2 = r3 at h ⊢
+        generalize (stripPlusMinus (s :: r'')).1 = en
+        have hne : r3.dropWhile isDigit ≠ [] := by
+          intro h0; rw [h0] at h; simp at h
+        obtain ⟨h1, h2⟩ := dropWhile_append_of_ne_nil q hne
+        rw [h1, h2]
+        cases hd : r3.dropWhile isDigit with
+        | nil => exact absurd hd hne
+        | cons x xs =>
+          constructor
+          · simp
+          · cases ht : r3.takeWhile isDigit <;> simp
+    · simp only [expInc, hc, ↓reduceIte, lexExponent]
+      simp
+
+
+/-- `fltInc` after the sign. -/
+def fltIncBody (r : List Char) : Bool :=
+  match r with
+  | [] => true
+  | _ :: _ =>
+    match r.takeWhile isDigit, r.dropWhile isDigit with
+    | _ :: _, [] => true
+    | _ :: _, '.' :: r2 => if (r2.dropWhile isDigit).isEmpty then true else expInc (r2.dropWhile isDigit)
+    | _ :: _, x :: r1 => expInc (x :: r1)
+    | [], _ =>
+      match r with
+      | '.' :: r2 =>
+        (match r2.takeWhile isDigit, r2.dropWhile isDigit with
+         | _, [] => true
+         | [], _ :: _ => false
+         | _ :: _, x :: r3 => expInc (x :: r3))
+      | _ => false
+
+theorem fltInc_eq (inp : List Char) : fltInc inp = fltIncBody (stripPlusMinus inp).2 := by
+  cases inp with
+  | nil => rfl
+  | cons c r =>
+    by_cases h1 : c = '-'
+    · subst h1; rfl
+    · by_cases h2 : c = '+'
+      · subst h2; rfl
+      · have e1 : stripPlusMinus (c :: r) = (false, c :: r) := by
+          unfold stripPlusMinus
+          split
+          · rename_i heq; simp only [List.cons.injEq] at heq; exact absurd heq.1 h1
+          · rename_i heq; simp only [List.cons.injEq] at heq; exact absurd heq.1 h2
+          · rfl
+        rw [e1]
+        unfold fltInc fltIncBody
+        simp [h1, h2]
+        rfl
+
+theorem map_lexExponent {r q : List Char} {neg : Bool} {I Fr : List Char}
+    (h : lexExponent (r ++ q) = (lexExponent r).map (fun t => (t.1, t.2.1, t.2.2 ++ q))) :
+    (match lexExponent (r ++ q) with
+      | some (en, eds, rest) => some (mkFloat neg I Fr en eds, rest)
+      | none => none) =
+    (match lexExponent r with
+      | some (en, eds, rest) => some (mkFloat neg I Fr en eds, rest)
+      | none => none).map (fun (t : Value × List Char) => (t.1, t.2 ++ q)) := by
+  rw [h]
+  cases lexExponent r with
+  | none => rfl
+  | some t => obtain ⟨a, b, c⟩ := t; rfl
+
+/-- The float body, when the streaming parser does not run into the end of the input. -/
+theorem floatBody_ext (neg : Bool) {r : List Char} (h : fltIncBody r = false) (q : List Char) :
+    fltIncBody (r ++ q) = false ∧
+    lexFloatBody neg (r ++ q) = (lexFloatBody neg r).map (fun t => (t.1, t.2 ++ q)) := by
+  cases r with
+  | nil => simp [fltIncBody] at h
+  | cons c0 r0 =>
+    by_cases hd0 : (c0 :: r0).dropWhile isDigit = []
+    · -- all digits: incomplete
+      exfalso
+      unfold fltIncBody at h
+      simp only [hd0] at h
+      cases ht : (c0 :: r0).takeWhile isDigit with
+      | nil =>
+        have := List.takeWhile_append_dropWhile (p := isDigit) (l := c0 :: r0)
+        rw [ht, hd0] at this; simp at this
+      | cons a b => rw [ht] at h; simp at h
+    · obtain ⟨e1, e2⟩ := dropWhile_append_of_ne_nil q hd0
+      cases hdr : (c0 :: r0).dropWhile isDigit with
+      | nil => exact absurd hdr hd0
+      | cons x r1 =>
+        cases ht : (c0 :: r0).takeWhile isDigit with
+        | cons d ds =>
+          -- integer digits, then `x`
+          unfold fltIncBody lexFloatBody at *
+          simp only [List.cons_append] at e1 e2 ⊢
+          simp only [ht, hdr] at h
+          simp only [e1, e2, ht, hdr, List.cons_append]
+          by_cases hx : x = '.'
+          · subst hx
+            simp only at h ⊢
+            by_cases hemp : (r1.dropWhile isDigit).isEmpty = true
+            · simp [hemp] at h
+            · have hne : r1.dropWhile isDigit ≠ [] := by intro h0; rw [h0] at hemp; simp at hemp
+              obtain ⟨g1, g2⟩ := dropWhile_append_of_ne_nil q hne
+              simp only [hemp, Bool.false_eq_true, ↓reduceIte] at h
+              obtain ⟨x1, x2⟩ := exponent_ext h q
+              have hemp' : ((r1.dropWhile isDigit ++ q).isEmpty) = false := by
+                cases hh : r1.dropWhile isDigit with
+                | nil => exact absurd hh hne
+                | cons _ _ => simp
+              simp only [g1, g2, hemp', Bool.false_eq_true, ↓reduceIte, x1, true_and]
+              exact map_lexExponent x2
+          · simp [hx] at h
+            obtain ⟨x1, x2⟩ := exponent_ext h q
+            simp only [List.cons_append] at x1 x2
+            simp [hx, x1]
+            rw [x2]
+            cases lexExponent (x :: r1) with
+            | none => rfl
+            | some t => obtain ⟨a, b, c⟩ := t; rfl
+        | nil =>
+          -- no integer digits: `.digits` or nothing
+          have hc0 : isDigit c0 = false := by
+            cases hdg : isDigit c0 with
+            | false => rfl
+            | true => simp [List.takeWhile, hdg] at ht
+          have hxr : x = c0 ∧ r1 = r0 := by
+            simp [List.dropWhile, hc0] at hdr; exact ⟨hdr.1.symm, hdr.2.symm⟩
+          obtain ⟨rfl, rfl⟩ := hxr
+          unfold fltIncBody lexFloatBody at *
+          simp only [List.cons_append] at e1 e2 ⊢
+          simp only [ht, hdr] at h
+          simp only [e1, e2, ht, hdr, List.cons_append]
+          by_cases hx : x = '.'
+          · subst hx
+            simp only at h ⊢
+            cases hdr2 : r1.dropWhile isDigit with
+            | nil => simp [hdr2] at h
+            | cons y r3 =>
+              have hne : r1.dropWhile isDigit ≠ [] := by rw [hdr2]; simp
+              obtain ⟨g1, g2⟩ := dropWhile_append_of_ne_nil q hne
+              rw [hdr2] at g1
+              cases ht2 : r1.takeWhile isDigit with
+              | nil => simp [ht2, hdr2, g1, g2]
+              | cons f fs =>
+                simp [ht2, hdr2] at h
+                obtain ⟨x1, x2⟩ := exponent_ext h q
+                simp only [List.cons_append] at x1 x2
+                simp [ht2, hdr2, g1, g2, x1]
+                rw [x2]
+                cases lexExponent (y :: r3) with
+                | none => rfl
+                | some t => obtain ⟨a, b, c⟩ := t; rfl
+          · simp [hx]
+
+
+theorem lexFloatM_stable : LxStable (lexFloatM true) := by
+  intro p q
+  unfold lexFloatM
+  by_cases hinc : fltInc p = true
+  · simp only [hinc, Bool.and_self, ↓reduceIte]; stab
+  · have hinc' : fltInc p = false := by simpa using hinc
+    have hp : p ≠ [] := by intro h; subst h; simp [fltInc] at hinc'
+    rw [fltInc_eq] at hinc'
+    obtain ⟨b1, b2⟩ := floatBody_ext (stripPlusMinus p).1 hinc' q
+    have hsp := stripPlusMinus_append hp q
+    have hincq : fltInc (p ++ q) = false := by rw [fltInc_eq, hsp]; exact b1
+    have hlf : lexFloat (p ++ q) = (lexFloat p).map (fun t => (t.1, t.2 ++ q)) := by
+      unfold lexFloat; rw [hsp]; exact b2
+    have hincp : fltInc p = false := by rw [fltInc_eq]; exact hinc'
+    simp only [hincp, hincq, Bool.and_false, Bool.false_eq_true, ↓reduceIte, hlf, Bool.true_and]
+    cases hl : lexFloat p with
+    | none => stab
+    | some t =>
+      obtain ⟨v, rest⟩ := t
+      simp only [Option.map_some]
+      cases v with
+      | float f =>
+        simp only
+        cases rest with
+        | nil => stab
+        | cons x xs => stab
+      | _ => stab
+
+
+theorem lexDecimalM_stable : LxStable (lexDecimalM true) := by
+  intro p q
+  cases p with
+  | nil => constructor <;> (intros; simp_all [lexDecimalM])
+  | cons c0 r0 =>
+    have hs := stripSign_append (p := c0 :: r0) (by simp) q
+    have hfl := lexFloatM_stable (c0 :: r0) q
+    simp only [List.cons_append] at hs hfl
+    unfold lexDecimalM
+    simp only [List.cons_append, hs]
+    generalize (stripSign (c0 :: r0)).1 = neg
+    cases hs2 : (stripSign (c0 :: r0)).2 with
+    | nil => stab
+    | cons x r =>
+      simp only [List.cons_append]
+      by_cases hd : (x :: r).dropWhile isDigit = []
+      · -- only digits so far
+        have ht : (x :: r).takeWhile isDigit = x :: r := by
+          have := List.takeWhile_append_dropWhile (p := isDigit) (l := x :: r)
+          rw [hd, List.append_nil] at this; exact this
+        rw [hd, ht]; stab
+      · obtain ⟨e1, e2⟩ := dropWhile_append_of_ne_nil q hd
+        simp only [List.cons_append] at e1 e2
+        rw [e1, e2]
+        cases hdr : (x :: r).dropWhile isDigit with
+        | nil => exact absurd hdr hd
+        | cons c rest =>
+          simp only [List.cons_append]
+          cases ht : (x :: r).takeWhile isDigit with
+          | nil => exact hfl
+          | cons d ds =>
+            simp only
+            by_cases hc : c = '.' ∨ c = 'e' ∨ c = 'E'
+            · simp only [hc, ↓reduceIte]; exact hfl
+            · simp only [hc, ↓reduceIte]; stab
+
+theorem lexNumM_stable : LxStable (lexNumM true) := by
+  intro p q
+  cases p with
+  | nil => constructor <;> (intros; simp_all [lexNumM])
+  | cons c0 r0 =>
+    have hb := lexRadixM_stable 'b' 'B' isBinDigit 2 (c0 :: r0) q
+    have hx := lexRadixM_stable 'x' 'X' isHexDigit 16 (c0 :: r0) q
+    have hd := lexDecimalM_stable (c0 :: r0) q
+    simp only [List.cons_append] at hb hx hd
+    unfold lexNumM
+    simp only [List.cons_append]
+    cases h1 : lexRadixM true 'b' 'B' isBinDigit 2 (c0 :: r0) with
+    | inc => stab
+    | ok a r => rw [hb.1 a r h1]; stab
+    | err =>
+      rw [hb.2 h1]
+      simp only
+      cases h2 : lexRadixM true 'x' 'X' isHexDigit 16 (c0 :: r0) with
+      | inc => stab
+      | ok a r => rw [hx.1 a r h2]; stab
+      | err => rw [hx.2 h2]; exact hd
+
+
+/-- Four characters that are not a whole base64 block: what `lexB64` does depends on them only; the tail passes through. -/
+theorem lexB64_nonblock (a b c d : Char) (t q : List Char) (f f' : Nat)
+    (h : (isB64 a && isB64 b && isB64 c && isB64 d) = false) :
+    lexB64 (f' + 1) (a :: b :: c :: d :: (t ++ q)) =
+      (lexB64 (f + 1) (a :: b :: c :: d :: t)).map (fun r => (r.1, r.2 ++ q)) := by
+  simp only [isB64] at h
+  simp only [lexB64]
+  cases ha : b64Val? a <;> cases hb : b64Val? b <;> cases hc : b64Val? c <;> cases hd : b64Val? d <;>
+    simp_all <;> (repeat' split) <;> simp_all
+
+
+set_option maxHeartbeats 1000000 in
+/-- Fewer than four characters that cannot be the beginning of anything base64: nothing is taken, whatever follows. -/
+theorem b64_short (r q : List Char) (f f' : Nat) (hlen : r.length < 4) (hall : r.all isB64 = false)
+    (hfin : b64FinalInc r = false) :
+    b64Inc (f' + 1) (r ++ q) = false ∧ lexB64 (f' + 1) (r ++ q) = some ([], r ++ q) ∧ lexB64 (f + 1) r = some ([], r) := by
+  rcases r with _ | ⟨a, _ | ⟨b, _ | ⟨c, _ | ⟨d, r'⟩⟩⟩⟩
+  · simp at hall
+  · -- [a]
+    simp only [List.all_cons, List.all_nil, Bool.and_true, b64FinalInc] at hall hfin
+    rcases q with _ | ⟨x, _ | ⟨y, _ | ⟨z, q'⟩⟩⟩ <;>
+      simp_all [b64Inc, b64FinalInc, lexB64, isB64] <;> (cases h : b64Val? a <;> simp_all)
+  · -- [a, b]
+    simp only [List.all_cons, List.all_nil, Bool.and_true, b64FinalInc] at hall hfin
+    rcases q with _ | ⟨x, _ | ⟨y, q'⟩⟩ <;>
+      simp_all [b64Inc, b64FinalInc, lexB64, isB64] <;>
+      (cases h : b64Val? a <;> cases h2 : b64Val? b <;> simp_all)
+  · -- [a, b, c]
+    simp only [List.all_cons, List.all_nil, Bool.and_true, b64FinalInc] at hall hfin
+    rcases q with _ | ⟨x, q'⟩ <;>
+      simp_all [b64Inc, b64FinalInc, lexB64, isB64] <;>
+      (cases h : b64Val? a <;> cases h2 : b64Val? b <;> cases h3 : b64Val? c <;> simp_all) <;>
+      (try (cases h4 : b64Val? x <;> simp_all))
+  · simp at hlen; omega
+
+
+theorem isB64_some {c : Char} (h : isB64 c = true) : ∃ x, b64Val? c = some x := by
+  simp only [isB64] at h
+  cases hb : b64Val? c with
+  | none => rw [hb] at h; simp at h
+  | some x => exact ⟨x, rfl⟩
+
+theorem b64Inc_short {r : List Char} (g : Nat) (hlen : r.length < 4) (h : b64Inc (g + 1) r = false) :
+    r.all isB64 = false ∧ b64FinalInc r = false := by
+  rcases r with _ | ⟨a, _ | ⟨b, _ | ⟨c, _ | ⟨d, r'⟩⟩⟩⟩
+  · simp [b64Inc] at h
+  · simp only [b64Inc] at h; split at h <;> simp_all
+  · simp only [b64Inc] at h; split at h <;> simp_all
+  · simp only [b64Inc] at h; split at h <;> simp_all
+  · simp at hlen; omega
+
+/-- The base64 part of a blob, when the streaming parser does not run into the end of the input. -/
+theorem b64_ext : ∀ (f f' : Nat) (r q : List Char), r.length < 4 * f → (r ++ q).length < 4 * f' →
+    b64Inc f r = false →
+    b64Inc f' (r ++ q) = false ∧ lexB64 f' (r ++ q) = (lexB64 f r).map (fun t => (t.1, t.2 ++ q))
+  | 0, _, r, q, h1, _, _ => by omega
+  | g + 1, 0, r, q, _, h2, _ => by omega
+  | g + 1, g' + 1, r, q, h1, h2, hinc => by
+    by_cases hlen : r.length < 4
+    · obtain ⟨ha, hf⟩ := b64Inc_short g hlen hinc
+      have hs := b64_short r q g g' hlen ha hf
+      exact ⟨hs.1, by rw [hs.2.1, hs.2.2]; rfl⟩
+    · rcases r with _ | ⟨a, _ | ⟨b, _ | ⟨c, _ | ⟨d, r'⟩⟩⟩⟩
+      · simp at hlen
+      · simp at hlen
+      · simp at hlen
+      · simp at hlen
+      · by_cases h4 : (isB64 a && isB64 b && isB64 c && isB64 d) = true
+        · simp only [Bool.and_eq_true] at h4
+          obtain ⟨⟨⟨h4a, h4b⟩, h4c⟩, h4d⟩ := h4
+          obtain ⟨x, hx⟩ := isB64_some h4a
+          obtain ⟨y, hy⟩ := isB64_some h4b
+          obtain ⟨z, hz⟩ := isB64_some h4c
+          obtain ⟨w, hw⟩ := isB64_some h4d
+          simp only [b64Inc, h4a, h4b, h4c, h4d, Bool.and_self, ↓reduceIte] at hinc
+          simp only [List.length_cons, List.length_append] at h1 h2
+          obtain ⟨i1, i2⟩ := b64_ext g g' r' q (by omega) (by simp only [List.length_append]; omega) hinc
+          constructor
+          · simp only [List.cons_append, b64Inc, h4a, h4b, h4c, h4d, Bool.and_self, ↓reduceIte]; exact i1
+          · simp only [List.cons_append, lexB64, hx, hy, hz, hw, i2]
+            cases lexB64 g r' with
+            | none => rfl
+            | some t => obtain ⟨bs, rest⟩ := t; rfl
+        · have h4' : (isB64 a && isB64 b && isB64 c && isB64 d) = false := by simpa using h4
+          constructor
+          · simp only [List.cons_append, b64Inc, h4', Bool.false_eq_true, ↓reduceIte]
+          · exact lexB64_nonblock a b c d r' q g g' h4'
+
+
+theorem lexBlobM_stable : LxStable (lexBlobM true) := by
+  intro p q
+  cases p with
+  | nil => constructor <;> (intros; simp_all [lexBlobM])
+  | cons c r =>
+    unfold lexBlobM
+    simp only [List.cons_append]
+    by_cases hc : c = '%'
+    · simp only [hc, ↓reduceIte, Bool.true_and]
+      by_cases hinc : b64Inc (r.length + 1) r = true
+      · simp only [hinc, ↓reduceIte]; stab
+      · have hinc' : b64Inc (r.length + 1) r = false := by simpa using hinc
+        obtain ⟨e1, e2⟩ := b64_ext (r.length + 1) ((r ++ q).length + 1) r q (by omega) (by omega) hinc'
+        simp only [hinc', Bool.false_eq_true, ↓reduceIte, e1, e2]
+        cases lexB64 (r.length + 1) r with
+        | none => stab
+        | some t => obtain ⟨bs, rest⟩ := t; stab
+    · simp only [hc, ↓reduceIte]; stab
+
+/-- **Token level**: the four primitive tokens, as the streaming automaton tries them, are stable. -/
+theorem lexPrimM_stable : LxStable (lexPrimM true) := by
+  intro p q
+  unfold lexPrimM
+  cases h1 : lexStr p with
+  | inc => stab
+  | ok a r => rw [lexStr_stable.ok h1 q]; stab
+  | err =>
+    rw [lexStr_stable.err h1 q]
+    simp only
+    cases h2 : lexIdentM true p with
+    | inc => stab
+    | ok a r => rw [lexIdentM_stable.ok h2 q]; stab
+    | err =>
+      rw [lexIdentM_stable.err h2 q]
+      simp only
+      cases h3 : lexNumM true p with
+      | inc => stab
+      | ok a r => rw [lexNumM_stable.ok h3 q]; stab
+      | err =>
+        rw [lexNumM_stable.err h3 q]
+        simp only
+        cases h4 : lexBlobM true p with
+        | inc => stab
+        | ok a r => rw [lexBlobM_stable.ok h4 q]; stab
+        | err => rw [lexBlobM_stable.err h4 q]; stab
+
+
 end SwimVerif.ReconInc
